@@ -144,6 +144,65 @@ struct Subject {
     n: u64,
     /// lower bound for n: execution-cost applications of the un-faulted run (debug breakdown)
     n_lower: u64,
+    /// the transaction is executed as an executable that carries a real transaction-intent nullification
+    /// (replay-protection record); the tracker entry of that intent hash is then part of the allowed set
+    intent: bool,
+    /// sort key of the tracker entry of this subject's own intent hash (intent subjects only)
+    own_key: Option<DbSortKey>,
+}
+
+impl Subject {
+    fn label(&self) -> String {
+        if self.intent {
+            format!("{}+intent", self.op.name())
+        } else {
+            self.op.name()
+        }
+    }
+}
+
+thread_local! {
+    static VM: VmModules<DefaultWasmEngine, NoExtension> = VmModules::default_with_extension(NoExtension);
+}
+
+fn intent_hash_of(exe_hash: &Hash) -> Hash {
+    *exe_hash
+}
+
+/// Executable with a real intent-hash nullification (what a notarized transaction carries), same instructions.
+fn intent_executable(sim: &mut Sim, sj: &Subject) -> ExecutableTransaction {
+    use radix_transactions::model::{AuthZoneInit, EpochRange, ExecutionContext, IntentHashNullification, PreparedTestTransaction, TestTransaction, TipSpecifier, TransactionCostingParameters};
+    let nonce = sim.next_transaction_nonce();
+    let prepared = TestTransaction::new_v1_from_nonce(sj.manifest.clone(), nonce, sj.proofs.iter().cloned().collect())
+        .prepare(sim.transaction_validator().preparation_settings())
+        .unwrap_or_else(|e| mc_core::machinery_error(&format!("C02: cannot prepare test transaction: {e:?}")));
+    let PreparedTestTransaction::V1(intent) = prepared else { unreachable!() };
+    let cur = sim.get_current_epoch();
+    let expiry = Epoch::of(cur.number() + 2);
+    ExecutableTransaction::new_v1(
+        intent.encoded_instructions.clone(),
+        AuthZoneInit::proofs(intent.initial_proofs.clone()),
+        intent.references.clone(),
+        intent.blobs.clone(),
+        ExecutionContext {
+            unique_hash: intent.hash,
+            intent_hash_nullifications: vec![IntentHashNullification::TransactionIntent { intent_hash: TransactionIntentHash::from_hash(intent_hash_of(&intent.hash)), expiry_epoch: expiry }],
+            epoch_range: Some(EpochRange { start_epoch_inclusive: cur, end_epoch_exclusive: expiry }),
+            payload_size: intent.encoded_instructions.len() + intent.blobs.values().map(|x| x.len()).sum::<usize>(),
+            num_of_signature_validations: intent.initial_proofs.len() + 1,
+            costing_parameters: TransactionCostingParameters { tip: TipSpecifier::None, free_credit_in_xrd: Decimal::ZERO },
+            pre_allocated_addresses: vec![],
+            disable_limits_and_costing_modules: false,
+            proposer_timestamp_range: None,
+        },
+    )
+}
+
+/// sort key of the tracker entry of an intent subject executed from the state `sim` is in
+fn own_tracker_key(sim: &mut Sim) -> Option<DbSortKey> {
+    let nonce = sim.next_transaction_nonce();
+    let h = hash(format!("Test transaction: {}", nonce));
+    Some(SpreadPrefixKeyMapper::to_db_sort_key(&SubstateKey::Map(scrypto_encode(&intent_hash_of(&h)).unwrap())))
 }
 
 #[derive(Clone, Copy, Debug, PartialEq, Eq)]
@@ -154,6 +213,27 @@ enum Mode {
 }
 
 fn run_mode(sim: &mut Sim, sj: &Subject, mode: Mode) -> Result<TransactionReceipt, String> {
+    if sj.intent {
+        let exe = intent_executable(sim, sj);
+        return match mode {
+            Mode::Plain => mc_core::catch(|| sim.execute_transaction(exe, ExecutionConfig::for_test_transaction())),
+            Mode::Abort => mc_core::catch(|| sim.execute_transaction(exe, ExecutionConfig::for_test_transaction().update_system_overrides(|o| o.set_abort_when_loan_repaid()))),
+            Mode::Fault(k) => mc_core::catch(|| {
+                // the same wiring as LedgerSimulator::execute_manifest_with_injected_error, for an executable
+                let receipt = VM.with(|vm| {
+                    let db = sim.substate_db();
+                    let vm_init = VmInit::load(db, vm);
+                    let system_init = InjectCostingErrorInit { system_input: SystemInit::load(db, ExecutionConfig::for_test_transaction().with_kernel_trace(false), vm_init), error_after_count: k };
+                    KernelInit::load(db, system_init).execute(&exe)
+                });
+                if let TransactionResult::Commit(c) = &receipt.result {
+                    let updates = c.state_updates.create_database_updates();
+                    radix_substate_store_interface::interface::CommittableSubstateDatabase::commit(sim.substate_db_mut(), &updates);
+                }
+                receipt
+            }),
+        };
+    }
     match mode {
         Mode::Plain => exec(sim, sj.manifest.clone(), sj.proofs.clone()),
         Mode::Abort => {
@@ -187,7 +267,7 @@ fn short_class(r: &TransactionReceipt) -> String {
 }
 
 /// The oracle. `after` is the simulator's database after the run.
-fn judge(st: &State, sj: &Subject, mode: Mode, receipt: &TransactionReceipt, after: &Db, full_invariants: bool) -> Result<Verdict, (String, String)> {
+fn judge(st: &State, sj: &Subject, mode: Mode, receipt: &TransactionReceipt, after: &Db, full_invariants: bool, own_key: Option<&DbSortKey>) -> Result<Verdict, (String, String)> {
     let digest = receipt_digest(receipt);
     let cls = short_class(receipt);
     match &receipt.result {
@@ -215,6 +295,7 @@ fn judge(st: &State, sj: &Subject, mode: Mode, receipt: &TransactionReceipt, aft
             let mut rewards_vault_delta = Decimal::ZERO;
             let mut rewards_change: Option<(&Vec<u8>, &Vec<u8>)> = None;
             let mut tracker_deleted_partitions: BTreeSet<PartitionNumber> = BTreeSet::new();
+            let mut own_entry_written = false;
             for ch in &diff {
                 let et = ch.node.entity_type();
                 let outside = |what: &str| -> (String, String) {
@@ -265,6 +346,12 @@ fn judge(st: &State, sj: &Subject, mode: Mode, receipt: &TransactionReceipt, aft
                         // only the rotation of the ring (whole-partition delete) is fee-unrelated bookkeeping of
                         // the replay-protection record
                         if ch.new.is_some() {
+                            // the only entry a transaction may write is the one of its own intent hash, once
+                            if own_key == Some(&ch.sort_key) && ch.old.is_none() && !own_entry_written {
+                                own_entry_written = true;
+                                shape.push_str("TE;");
+                                continue;
+                            }
                             return Err(outside("tracker-entry-written"));
                         }
                         tracker_deleted_partitions.insert(ch.partition);
@@ -388,6 +475,7 @@ fn case_json(st: &State, sj: &Subject, mode: Mode) -> Value {
     json!({
         "history": st.history.iter().map(|o| o.name()).collect::<Vec<_>>(),
         "op": sj.op.name(),
+        "intent": sj.intent,
         "mode": match mode { Mode::Plain => "plain".to_string(), Mode::Abort => "abort".to_string(), Mode::Fault(_) => "fault".to_string() },
         "k": match mode { Mode::Fault(k) => k, _ => 0 },
     })
@@ -397,21 +485,22 @@ fn case_json(st: &State, sj: &Subject, mode: Mode) -> Value {
 fn run_case(st: &State, sj: &Subject, mode: Mode, l: &mut Local, full_invariants: bool) -> Option<Verdict> {
     l.eval();
     with_sim(&st.snap, |sim| {
+        let own_key = sj.own_key.clone();
         let r = run_mode(sim, sj, mode);
         match r {
             Err(p) => {
                 // "whatever the point at which execution failed": the engine must produce a receipt
                 l.violation(
                     format!("panic:{}", mc_core::last_panic_location()),
-                    format!("{} {:?} panicked instead of producing a receipt: {}", sj.op.name(), mode, mc_core::truncate(&p, 300)),
+                    format!("{} {:?} panicked instead of producing a receipt: {}", sj.label(), mode, mc_core::truncate(&p, 300)),
                     case_json(st, sj, mode),
                 );
                 None
             }
-            Ok(receipt) => match judge(st, sj, mode, &receipt, sim.substate_db(), full_invariants) {
+            Ok(receipt) => match judge(st, sj, mode, &receipt, sim.substate_db(), full_invariants, own_key.as_ref()) {
                 Ok(v) => Some(v),
                 Err((key, what)) => {
-                    l.violation(key, format!("{} [{}] {:?}: {what} (receipt: {})", sj.op.name(), st.history.iter().map(|o| o.name()).collect::<Vec<_>>().join(","), mode, short_class(&receipt)), case_json(st, sj, mode));
+                    l.violation(key, format!("{} [{}] {:?}: {what} (receipt: {})", sj.label(), st.history.iter().map(|o| o.name()).collect::<Vec<_>>().join(","), mode, short_class(&receipt)), case_json(st, sj, mode));
                     None
                 }
             },
@@ -483,7 +572,7 @@ fn expand_states(ctx: &Ctx, root: &Root, parents: &[State], seen: &mut BTreeSet<
     out
 }
 
-fn prepare_subject(root: &Root, states: &[State], si: usize, op: Op) -> Result<Option<Subject>, String> {
+fn prepare_subject(root: &Root, states: &[State], si: usize, op: Op, intent: bool) -> Result<Option<Subject>, String> {
     let st = &states[si];
     let mut sim = sim_from(&st.snap);
     let Some((manifest, proofs)) = build_op(&mut sim, &root.w, &root.x, op) else { return Ok(None) };
@@ -499,7 +588,10 @@ fn prepare_subject(root: &Root, states: &[State], si: usize, op: Op) -> Result<O
         }
     }
     let contingent_only: BTreeSet<NodeId> = fee_vaults.difference(&non_contingent).copied().collect();
-    let mut sj = Subject { state: si, op, manifest, proofs, fee_vaults, contingent_only, base_digest: Hash([0u8; 32]), base_class: String::new(), n: 0, n_lower: 0 };
+    let mut sj = Subject { state: si, op, manifest, proofs, fee_vaults, contingent_only, base_digest: Hash([0u8; 32]), base_class: String::new(), n: 0, n_lower: 0, intent, own_key: None };
+    if intent {
+        sj.own_key = own_tracker_key(&mut sim_from(&st.snap));
+    }
     // un-faulted receipt
     let base = with_sim(&st.snap, |sim| run_mode(sim, &sj, Mode::Plain)).map_err(|p| format!("un-faulted {} panicked: {p}", op.name()))?;
     sj.base_digest = receipt_digest(&base);
@@ -599,8 +691,12 @@ pub fn run(ctx: Ctx) -> ! {
 
     // ---- subjects
     let ops = all_ops();
-    let pairs: Vec<(usize, Op)> = (0..states.len()).flat_map(|i| ops.iter().map(move |o| (i, *o))).collect();
-    let prepared = par_map(ctx.threads, &pairs, |(si, op)| prepare_subject(&root, &states, *si, *op));
+    let mut pairs: Vec<(usize, Op, bool)> = (0..states.len()).flat_map(|i| ops.iter().map(move |o| (i, *o, false))).collect();
+    // the same transaction carried by an executable with a real intent-hash nullification (root state, full sweep)
+    for op in [Op::Menu(Tx::TransferF), Op::Menu(Tx::FailAssert), Op::Menu(Tx::ContingentFail), Op::Extra(Extra::LockAThenSpendXrd)] {
+        pairs.push((0, op, true));
+    }
+    let prepared = par_map(ctx.threads, &pairs, |(si, op, intent)| prepare_subject(&root, &states, *si, *op, *intent));
     let mut subjects: Vec<Subject> = vec![];
     for p in prepared {
         match p {
@@ -743,8 +839,8 @@ pub fn run(ctx: Ctx) -> ! {
     // ---- evidence
     let mut cov = Map::new();
     let ns: Vec<u64> = subjects.iter().map(|s| s.n).collect();
-    let root_points: BTreeMap<String, u64> = subjects.iter().filter(|s| s.state == 0).map(|s| (s.op.name(), s.n)).collect();
-    let root_outcomes: BTreeMap<String, String> = subjects.iter().filter(|s| s.state == 0).map(|s| (s.op.name(), s.base_class.clone())).collect();
+    let root_points: BTreeMap<String, u64> = subjects.iter().filter(|s| s.state == 0).map(|s| (s.label(), s.n)).collect();
+    let root_outcomes: BTreeMap<String, String> = subjects.iter().filter(|s| s.state == 0).map(|s| (s.label(), s.base_class.clone())).collect();
     cov.insert("unfaulted_outcome_per_transaction_root_state".into(), json!(root_outcomes));
     cov.insert("states_per_depth".into(), json!(per_depth));
     cov.insert("subjects".into(), json!(subjects.len()));
@@ -782,7 +878,7 @@ pub fn run(ctx: Ctx) -> ! {
         cov,
         &[
             "NextRound (system transaction, costing disabled) has no cost hook and is not injectable; it is used to reach states only",
-            "test transactions carry no intent-hash nullification, so the replay-protection record reduces to the tracker field / ring rotation",
+            "menu transactions are test transactions without an intent-hash nullification (replay-protection record = tracker field / ring rotation); 4 of them are additionally swept at the root state as executables with a real transaction-intent nullification, for which the tracker entry of that intent hash joins the allowed set",
             "states reached by failed commits are not expanded (they differ from the parent by fee balances only, which is what is checked on them)",
             "states with equal balances/supplies/epoch/round/freeze flag are merged at depth 2",
             "engine full-database checkers run on one representative (smallest k) per distinct changed-substate shape of every subject; the independent resource scan runs on every failed commit",
@@ -808,7 +904,7 @@ fn replay(ctx: Ctx, root: &Root) -> ! {
         }
     }
     let states = vec![make_state(&sim, hist)];
-    let sj = match prepare_subject(root, &states, 0, op) {
+    let sj = match prepare_subject(root, &states, 0, op, case["intent"].as_bool().unwrap_or(false)) {
         Ok(Some(s)) => s,
         Ok(None) => mc_core::machinery_error("replay: op is not injectable"),
         Err(e) => mc_core::machinery_error(&format!("replay: {e}")),
